@@ -69,9 +69,13 @@ SubLeaves(n, base) ==       \* the fields of a nested struct, ids from base upwa
   ELSE IF n = 2 THEN
        UNION {{<<Leaf(base, k1, "none", FALSE, FALSE, p1), Leaf(base + 1, k2, st2, FALSE, al2, p2)>> :
                   k1 \in Kinds, k2 \in Kinds, st2 \in TagStyles \cap {"none", "snake"}, p1 \in {"neither", "primary"}, p2 \in Pats(al2)} : al2 \in AliasChoices}
-  ELSE \* a leaf followed by a struct nested one level deeper (the deeper struct may stay entirely unset)
+  ELSE IF n = 3 THEN \* a leaf followed by a struct nested one level deeper (the deeper struct may stay entirely unset)
        {<<Leaf(base, k1, "none", FALSE, FALSE, p1), Inner(base + 1, nk, k2, p2)>> :
             k1 \in Kinds, k2 \in Kinds, nk \in NestKinds \ {"emb"}, p1 \in {"neither", "primary"}, p2 \in {"neither", "primary"}}
+  ELSE \* two different structs nested one level deeper
+       {<<Inner(base, nk1, k1, p1), Inner(base + 2, nk2, k2, p2)>> :
+            k1 \in Kinds, k2 \in Kinds, nk1 \in NestKinds \ {"emb"}, nk2 \in NestKinds \ {"emb"},
+            p1 \in {"neither", "primary"}, p2 \in {"neither", "primary"}}
 
 AddStruct ==
   /\ ~done /\ Len(fields) < MaxTop /\ NestKinds # {}
@@ -81,7 +85,7 @@ AddStruct ==
          /\ fields' = Append(fields, [id |-> nextId, name |-> Names[nextId], kind |-> "", tag |-> IF nk = "emb" THEN NoTag ELSE TagOf(st, nextId),
                                       srctag |-> FALSE, alias |-> IF pa THEN AliasWords[nextId] ELSE <<>>, pat |-> "", nest |-> nk, sub |-> sub,
                                       palias |-> pa])
-         /\ nextId' = nextId + 1 + (IF n = 3 THEN 3 ELSE n)
+         /\ nextId' = nextId + 1 + (IF n = 3 THEN 3 ELSE n)      \* (n = 4: two inner structs with one leaf each use four ids)
   /\ UNCHANGED <<done, prefix>>
 
 Finish == ~done /\ fields # <<>> /\ done' = TRUE /\ UNCHANGED <<fields, nextId, prefix>>
